@@ -140,6 +140,19 @@ def case(spec):
         slash = rng.choice(['', '/', '//'])
         reldest = rng.random() < 0.3
         dest_arg = (os.path.relpath(dest, cwd) if reldest else dest) + slash
+        spelling = idx % 5
+        if spelling == 3:
+            # relative spellings with './' prefixes and empty components: still the same directory
+            dest_arg = rng.choice(['./', './/', '././', './/.//']) + os.path.relpath(dest, cwd) + slash
+            res.seen('destination_spellings', 'dot-slash-prefix')
+        elif spelling == 4:
+            # './/' + the absolute path of a decoy directory without its leading '/': the named directory is the one
+            # below the current directory, not the decoy that the text after './/' would name as an absolute path
+            decoy_dir = dest
+            dest = os.path.join(cwd, decoy_dir.lstrip('/'))
+            os.makedirs(dest)
+            dest_arg = rng.choice(['.//', '././/', './/./']) + decoy_dir.lstrip('/') + slash
+            res.seen('destination_spellings', 'mirror-of-absolute-decoy')
         for xdir in rng.sample(['$', '.', '/', 'A', '-', s.volumes[0].cat.entries[0].dir if s.volumes[0].cat.entries else 'B'], 3):
             cmds.append(('extract-files', ['--dir', xdir], ['extract-files', dest_arg], True))
         cmds.append(('extract-unused', [], ['extract-unused', dest_arg], True))
